@@ -5,6 +5,7 @@ package main
 import (
 	"fmt"
 	"go/token"
+	"go/types"
 	"sort"
 	"strings"
 
@@ -1562,11 +1563,44 @@ func c15Quota(r *Run, s *c15Sel) {
 			}
 		}
 	}
+	// ... and integer maps advanced inside the selection loop (per-value counters of the selection),
+	// whether or not a comparison still uses them
+	selH := map[*ssa.BasicBlock]bool{}
+	for _, a := range s.classify() {
+		if a.class == "new" && a.loop != nil {
+			selH[a.loop.Header] = true
+		}
+	}
+	for _, l := range sliceLoopsC(fn) {
+		if !selH[l.Header] {
+			continue
+		}
+		for b := range l.In {
+			for _, in := range b.Instrs {
+				mu, ok := in.(*ssa.MapUpdate)
+				if !ok {
+					continue
+				}
+				mm, isMM := mu.Map.(*ssa.MakeMap)
+				if !isMM {
+					continue
+				}
+				if mt, isMap := mm.Type().Underlying().(*types.Map); isMap {
+					if bt, isB := mt.Elem().Underlying().(*types.Basic); isB && bt.Info()&types.IsInteger != 0 {
+						if c, isC := constInt(mu.Value); !isC || c != 0 {
+							quota[mm] = true
+						}
+					}
+				}
+			}
+		}
+	}
 	if len(quota) == 0 {
 		o := r.Check("C15.R13", "anti-affinity quota", r.Prog.Pos(fn.Pos()), shortFunc(fn), "the selection applies a per-value quota", true, "no quota map compared with the resolved replicas: nothing to decide")
 		o.Trivial = true
 		return
 	}
+	c15QuotaGate(r, s, quota)
 	chain := c15ChainValues(s.store.Val)
 	inChain := func(v ssa.Value) bool {
 		for cv := range chain {
@@ -1721,4 +1755,144 @@ func c15GlobalMapEntries(g *ssa.Global) (map[string]string, bool) {
 		}
 	}
 	return out, len(out) > 0
+}
+
+// c15QuotaGate (R13): the quota test really gates the selection and is not more generous than an
+// even share. (a) every path of the selection loop that consults a quota counter and then reaches
+// the append of the new name carries `counter < quota`; (b) the quota is, as a linear form, at most
+// ceil(resolved replicas / number of values): (replicas + len(m) + c)/len(m) with c <= -1, or
+// (replicas + c)/len(m) with c <= 0 (a more conservative quota is accepted).
+func c15QuotaGate(r *Run, s *c15Sel, quota map[*ssa.MakeMap]bool) {
+	fn := s.fn
+	isCounter := func(v ssa.Value) bool {
+		lk, ok := unwrap(v).(*ssa.Lookup)
+		if !ok {
+			return false
+		}
+		mm, ok := lk.X.(*ssa.MakeMap)
+		return ok && quota[mm]
+	}
+	dependsOnNb := func(v ssa.Value) bool { return dependsOn(v, func(x ssa.Value) bool { return x == s.nb }) }
+	// gates: branch conditions comparing a counter with a value that depends on the resolved replicas
+	type gate struct {
+		blk   *ssa.BasicBlock
+		quota ssa.Value
+	}
+	var gates []gate
+	for _, b := range fn.Blocks {
+		iff := lastIfC(b)
+		if iff == nil {
+			continue
+		}
+		for _, f := range s.k.normCond(iff.Cond, true) {
+			cf, ok := decodeCmpC(f)
+			if !ok {
+				continue
+			}
+			switch {
+			case isCounter(cf.X) && dependsOnNb(cf.Y):
+				gates = append(gates, gate{b, cf.Y})
+			case isCounter(cf.Y) && dependsOnNb(cf.X):
+				gates = append(gates, gate{b, cf.X})
+			}
+		}
+	}
+	if len(gates) == 0 {
+		r.Check("C15.R13", "quota gates the selection", r.Prog.Pos(fn.Pos()), shortFunc(fn),
+			"the per-value counters maintained by the selection limit it: some branch compares a counter with a quota derived from the resolved replicas", false,
+			"counters are advanced per anti-affinity value but no branch condition compares them with a quota (the anti-affinity keys have no effect)")
+		return
+	}
+	// (a) the gate guards the append of a new name
+	for _, a := range s.classify() {
+		if a.class != "new" || a.loop == nil {
+			continue
+		}
+		l := a.loop
+		isEnd := func(b *ssa.BasicBlock) bool { return b == a.ap.Block() }
+		stop := func(b *ssa.BasicBlock) bool { return b == a.ap.Block() || !l.In[b] || b == l.Header }
+		paths, ok := enumPaths(fn, s.k, l.Body, isEnd, stop, 5000)
+		r.paths += len(paths)
+		good, detail := ok && len(paths) > 0, ""
+		for _, p := range paths {
+			consulted := false
+			for _, g := range gates {
+				if p.Contains(g.blk) {
+					consulted = true
+				}
+			}
+			if !consulted {
+				continue // the quota does not apply on this path (no anti-affinity keys)
+			}
+			below := false
+			for _, f := range p.Facts {
+				cf, okc := decodeCmpC(f)
+				if okc && cf.Op == "<" && cf.Pol && isCounter(cf.X) && dependsOnNb(cf.Y) {
+					below = true
+				}
+			}
+			if !below {
+				good = false
+				detail = "a name is appended after the quota was consulted without the fact counter < quota; path facts: " + descFactsC(p.Facts)
+			}
+		}
+		r.Check("C15.R13", "quota gates the selection", r.Prog.Pos(instrPos(a.ap)), shortFunc(fn),
+			"when the per-value quota is consulted, a new node is appended only while its value's counter is below the quota", good, detail)
+	}
+	// (b) the quota is at most an even share
+	seen := map[ssa.Value]bool{}
+	for _, g := range gates {
+		if seen[g.quota] {
+			continue
+		}
+		seen[g.quota] = true
+		pos := r.Prog.Pos(instrPos(lastIfC(g.blk)))
+		q, ok := unwrap(g.quota).(*ssa.BinOp)
+		isLen := func(v ssa.Value) bool {
+			ln := builtinCallC(unwrap(v), "len")
+			if ln == nil {
+				return false
+			}
+			mm, isMM := ln.Call.Args[0].(*ssa.MakeMap)
+			return isMM && quota[mm]
+		}
+		if !ok || q.Op != token.QUO || !isLen(q.Y) {
+			r.Undecided("C15.R13", "quota is at most an even share", pos, shortFunc(fn), "the quota is not a quotient by the number of anti-affinity values: "+descValueC(g.quota))
+			continue
+		}
+		var lin func(v ssa.Value) (nbC, lenC, c int64, ok bool)
+		lin = func(v ssa.Value) (int64, int64, int64, bool) {
+			v = unwrap(v)
+			if v == s.nb {
+				return 1, 0, 0, true
+			}
+			if isLen(v) {
+				return 0, 1, 0, true
+			}
+			if cst, isC := constInt(v); isC {
+				return 0, 0, cst, true
+			}
+			if b, isB := v.(*ssa.BinOp); isB && (b.Op == token.ADD || b.Op == token.SUB) {
+				a1, b1, c1, ok1 := lin(b.X)
+				a2, b2, c2, ok2 := lin(b.Y)
+				if !ok1 || !ok2 {
+					return 0, 0, 0, false
+				}
+				if b.Op == token.SUB {
+					a2, b2, c2 = -a2, -b2, -c2
+				}
+				return a1 + a2, b1 + b2, c1 + c2, true
+			}
+			return 0, 0, 0, false
+		}
+		nbC, lenC, c, okL := lin(q.X)
+		if !okL {
+			r.Undecided("C15.R13", "quota is at most an even share", pos, shortFunc(fn), "the numerator of the quota is not a linear form of the resolved replicas and the number of values: "+descValueC(q.X))
+			continue
+		}
+		good := nbC == 1 && ((lenC == 1 && c <= -1) || (lenC == 0 && c <= 0))
+		r.Check("C15.R13", "quota is at most an even share", pos, shortFunc(fn),
+			"the per-value quota is at most ceil(resolved replicas / number of values): (replicas + len(values) + c)/len(values) needs c <= -1", good,
+			fmt.Sprintf("quota = (%d*replicas + %d*len(values) + %d) / len(values)", nbC, lenC, c))
+	}
 }
